@@ -199,3 +199,17 @@ Theorem C18_translated_symeig_prelude_is_model : forall ad md n ah mh m,
   PyDispatchEig.symeig_method_prelude ad md n ah mh (meth_obj m) = Ok (meth_obj (lower_meth (with_default "exacteig" m))).
 Proof. exact symeig_method_prelude_refines. Qed.
 Print Assumptions C18_translated_symeig_prelude_is_model.
+
+From XV Require Gen.PyDispatchRF.
+Theorem C18_translated_equilibrium_prelude_is_model : forall t m,
+  let m' := lower_meth (with_default "broyden1" m) in
+  PyDispatchRF.equilibrium_method_prelude (meth_obj m) (tbl_obj t) =
+  Ok (meth_obj m', if in_table m' t then "equilibrium" else "rootfinder").
+Proof. exact equilibrium_method_prelude_refines. Qed.
+Print Assumptions C18_translated_equilibrium_prelude_is_model.
+
+Theorem C18_translated_minimize_prelude_is_model : forall t fo m,
+  let m' := lower_meth (with_default "broyden1" m) in
+  PyDispatchRF.minimize_method_prelude (meth_obj m) fo (tbl_obj t) = Ok (meth_obj m', negb (in_table m' t)).
+Proof. exact minimize_method_prelude_refines. Qed.
+Print Assumptions C18_translated_minimize_prelude_is_model.
